@@ -403,9 +403,43 @@ func cwRunBehaviour(beh []map[string]any, d time.Duration) (o cwOutcome) {
 	flushWait := d + 3*time.Second
 
 	driver := goid()
+	// after perChannelWriter.Close the connection is gone: what is added afterwards is not owed to it (the code drops it,
+	// or buffers it in a fresh writer when the channel had none); such items are left out of the judgement
+	closedPCW := false
+	optional := map[int]bool{}
+	owed := func(bs []cwBatch) []cwBatch {
+		if len(optional) == 0 {
+			return bs
+		}
+		var out []cwBatch
+		for _, x := range bs {
+			var ids []int
+			for _, id := range x.ids {
+				if !optional[id] {
+					ids = append(ids, id)
+				}
+			}
+			if len(ids) > 0 {
+				out = append(out, cwBatch{ids, x.gid})
+			}
+		}
+		return out
+	}
 	feed := func(bs []cwBatch, inCall int) bool { // returns false when a monitor fired
 		for _, x := range bs {
-			if v := mon.flush(x.ids, inCall, x.gid == driver); v != nil {
+			ids := x.ids
+			if len(optional) > 0 {
+				ids = nil
+				for _, id := range x.ids {
+					if !optional[id] {
+						ids = append(ids, id)
+					}
+				}
+				if len(ids) == 0 {
+					continue
+				}
+			}
+			if v := mon.flush(ids, inCall, x.gid == driver); v != nil {
 				o.vs = append(o.vs, *v)
 				return false
 			}
@@ -445,7 +479,11 @@ func cwRunBehaviour(beh []map[string]any, d time.Duration) (o cwOutcome) {
 		switch act {
 		case "Add":
 			it := cwItemOf(step["item"])
-			mon.add(it)
+			if closedPCW {
+				optional[it.ID] = true
+			} else {
+				mon.add(it)
+			}
 			pcw.Add(cwQueueItem(it), cwChannel, bc)
 			bs := rec.take()
 			got = batchIDs(bs)
@@ -486,6 +524,7 @@ func cwRunBehaviour(beh []map[string]any, d time.Duration) (o cwOutcome) {
 				pcw.DelWriter(cwChannel, fl)
 			} else {
 				pcw.Close(fl)
+				closedPCW = true
 			}
 			bs := rec.take()
 			got = batchIDs(bs)
@@ -493,7 +532,7 @@ func cwRunBehaviour(beh []map[string]any, d time.Duration) (o cwOutcome) {
 			if act == "Close" {
 				what = "Close"
 			}
-			if vs := mon.end(what, fl, bs, driver); len(vs) > 0 {
+			if vs := mon.end(what, fl, owed(bs), driver); len(vs) > 0 {
 				o.vs = append(o.vs, vs...)
 				return
 			}
@@ -523,7 +562,7 @@ func cwRunBehaviour(beh []map[string]any, d time.Duration) (o cwOutcome) {
 			return
 		}
 		pcw.DelWriter(cwChannel, true)
-		if vs := mon.end("delWriter", true, rec.take(), driver); len(vs) > 0 {
+		if vs := mon.end("delWriter", true, owed(rec.take()), driver); len(vs) > 0 {
 			o.vs = append(o.vs, vs...)
 		}
 		return
@@ -557,7 +596,7 @@ func cwRunBehaviour(beh []map[string]any, d time.Duration) (o cwOutcome) {
 		return
 	}
 	pcw.DelWriter(cwChannel, true)
-	if vs := mon.end("delWriter", true, rec.take(), driver); len(vs) > 0 {
+	if vs := mon.end("delWriter", true, owed(rec.take()), driver); len(vs) > 0 {
 		o.vs = append(o.vs, vs...)
 	}
 	return
